@@ -46,6 +46,8 @@ pub fn programs() -> Vec<(&'static str, String)> {
         ("recursion with locals", "fn r(n, acc) {\na := n\nb := acc\nif n == 0 {\nreturn acc\n}\nreturn r(n - 1, acc + [a])\n}\nprint(r(20, []))\n".to_string()),
         ("unicode text", "s := \"é€😀\"\nprint(s + s)\nprint($\"<${s}>\")\nprint(s->len())\n".to_string()),
         ("equality on wide objects", format!("{}p := {{}}\nfor [k, v] in o {{\np[k] = v\n}}\nprint(p == o)\nprint(o)\n", big)),
+        ("printing half a character", "s := \"né\"\nprint(\"start\")\nprint(s[1])\nprint(\"unreachable\")\n".to_string()),
+        ("printing half a character from a loop", "for [i, c] in \"aé\" {\nprint(i)\nprint(c)\n}\n".to_string()),
         ("type function stored in an object", "name := \"abc\"\ntools := {\"size\": name->len, \"kind\": name->type, \"f\": fn () {\nreturn 1\n}}\nprint(\"start\")\nprint(tools.size())\n".to_string()),
         ("two different duplicated parameter names in patterns", "print(\"start\")\nfn area([width, height], {\"w\": width, \"h\": height}, depth, depth) {\n}\n".to_string()),
         ("error inside nested calls", "fn a1(x) {\nreturn b1(x)\n}\nfn b1(y) {\nreturn c1(y)\n}\nfn c1(z) {\nreturn z.missing\n}\nprint(\"start\")\na1({\"k\": 1})\n".to_string()),
